@@ -226,9 +226,12 @@ fn exec_pack(arg: &str) -> OpOut {
             o.out = format!("ok {}", hex_of(&bytes));
             o.tags.push(format!("pack:cols:{}", bucket(vals.len())));
             // oracle: the real unpack gives back the values, bit for bit
-            match unpack_columns(&bytes) {
+            let (back, _) = measured(|| unpack_columns(&bytes).map(|vs| vs.iter().map(|v| show_valref(&v.0)).collect::<Vec<String>>()));
+            match back.unwrap_or_else(|p| {
+                o.fails.push(format!("unpack_columns(pack_columns(v)) panicked: {p}"));
+                Ok(vals.iter().map(show_val).collect())
+            }) {
                 Ok(back) => {
-                    let back: Vec<String> = back.iter().map(|v| show_valref(&v.0)).collect();
                     let want: Vec<String> = vals.iter().map(show_val).collect();
                     if back != want {
                         o.fails.push(format!(
@@ -358,9 +361,12 @@ fn exec_ext_pack(arg: &str) -> OpOut {
                 o.fails.push("crsql_unpack_columns(crsql_pack_columns(v)) != v".into());
             }
             // our unpack of the extension's bytes
-            match unpack_columns(&packed) {
-                Ok(vs) => {
-                    let got: Vec<String> = vs.iter().map(|v| show_valref(&v.0)).collect();
+            let (ours, _) = measured(|| unpack_columns(&packed).map(|vs| vs.iter().map(|v| show_valref(&v.0)).collect::<Vec<String>>()));
+            match ours.unwrap_or_else(|p| {
+                o.fails.push(format!("unpack_columns of the extension's packing panicked: {p}"));
+                Ok(vals.iter().map(show_val).collect())
+            }) {
+                Ok(got) => {
                     let want: Vec<String> = vals.iter().map(show_val).collect();
                     if got != want {
                         o.fails.push("unpack_columns(crsql_pack_columns(v)) != v".into());
